@@ -524,9 +524,10 @@ def bounds(tier):
             "(k<=2 x k<=2) + (core k=3 x core k=3)", "core_atoms": len(CORE),
             "predicates": list(PREDICATES), "inputs": [0, 2], "steps": 3,
             "written_as": "pairs with <= %d atoms in total: A in {as-built, rev-ids+rev-order} x B in %s (ids permuted "
-            "within the phase / statement list reversed); pairs with one atom more: as built and either method "
-            "rev-ids+rev-order (structural check only); larger pairs as built" % (2 if tier == "quick" else 3,
-                                                                                  PRESENTATIONS)}
+            "within the phase / statement list reversed); %slarger pairs as built" % (
+                2 if tier == "quick" else 3, PRESENTATIONS,
+                "pairs with 3 atoms: as built and either method rev-ids+rev-order (structural check only); "
+                if tier == "quick" else "")}
 
 
 def pairs(tier):
@@ -560,11 +561,11 @@ HOWS = [(a, b) for a in ("as-built", "rev-ids+rev-order") for b in PRESENTATIONS
 
 def hows_for(na, nb, tier):
     n = len(na) + len(nb)
-    small = 2 if tier == "quick" else 3
-    if n <= small:
+    if n <= 2:
         return HOWS
-    if n == small + 1:
-        return [HOWS[0], ("as-built", "rev-ids+rev-order"), ("rev-ids+rev-order", "as-built")]
+    if n == 3:
+        return HOWS if tier == "thorough" else [HOWS[0], ("as-built", "rev-ids+rev-order"),
+                                                  ("rev-ids+rev-order", "as-built")]
     return HOWS[:1]
 
 
